@@ -398,3 +398,47 @@ theorem absentSrc_read (raw : Raw C) (ty : FTy) :
 
 end Table
 end EngineModel
+
+namespace EngineModel
+namespace Table
+set_option linter.unusedSectionVars false
+variable {C F : Type} [DecidableEq C] [DecidableEq F]
+
+/-- An aligned write names the column of every needed member. -/
+theorem alignedW_mem {sp : TSpec C F} {need : List F} {consts : List (C × Val)} {ps : List (WB C F)}
+    (ha : alignedW sp need consts ps = true) {f : F} (hf : f ∈ need) : sp.colOf f ∈ ps.map (·.col) := by
+  simp only [alignedW, Bool.and_eq_true, List.all_eq_true, List.contains_eq_mem,
+    decide_eq_true_eq] at ha
+  obtain ⟨⟨⟨_, _⟩, hneed⟩, _⟩ := ha
+  exact List.mem_map.mpr ⟨_, hneed f hf, rfl⟩
+
+end Table
+end EngineModel
+
+namespace EngineModel
+namespace Table
+set_option linter.unusedSectionVars false
+variable {C F : Type} [DecidableEq C] [DecidableEq F]
+
+/-- What an aligned `SELECT` that returned `g` read for member `f`. -/
+theorem readRow_aligned_inv {sp : TSpec C F} {present : F → Bool} {sel : List (RB C F)} {raw : Raw C}
+    {g : Row F} (har : alignedR sp present sel = true) (hnd : nodupB sp.fields = true)
+    (h : readRow raw sel = .ok g) {f : F} (hf : f ∈ sp.fields) :
+    readSrc raw (expectedSrc sp present f) = .ok (g f) := by
+  have hf' : f ∈ sel.map (·.field) := by rw [alignedR_fields har]; exact hf
+  obtain ⟨b, hb, rfl⟩ := List.mem_map.mp hf'
+  have h1 := readRow_ok h (by rw [alignedR_fields har]; exact hnd) b hb
+  rw [alignedR_src har hb] at h1
+  exact h1
+
+/-- The expected source of a member looks at that member's column only. -/
+theorem readSrc_congr {sp : TSpec C F} {present : F → Bool} {raw1 raw2 : Raw C} {f : F}
+    (h : raw1 (sp.colOf f) = raw2 (sp.colOf f)) :
+    readSrc raw1 (expectedSrc sp present f) = readSrc raw2 (expectedSrc sp present f) := by
+  unfold expectedSrc
+  split
+  · simp only [readSrc, h]
+  · cases sp.tyOf f <;> rfl
+
+end Table
+end EngineModel
